@@ -198,6 +198,26 @@ func c09Body(env *simrt.Env) {
 		o := chanObs{recs: per[c].recs, epochs: []epoch{{ts: tss[c], npre: npre, nsamp: nsamp}}}
 		checkExcerpts(w, c, &o)
 	}
+	// A restart: the state a client holds (the latest GROUPTRIGGER message) must equal the set the
+	// restarted source actually uses, whatever the implementation does with connections across runs.
+	if simrt.Draw(2) == 0 {
+		w.sent, w.fed = 0, 0
+		if err := w.startScripted(); err != nil {
+			simrt.Fail("harness.start", "harness:restart", "second Start failed: %v", err)
+		}
+		w.drain()
+		used := map[pair]bool{}
+		for s, rxs := range w.ss.ComputeGroupTriggerState().Connections {
+			for _, r := range rxs {
+				used[pair{s, r}] = true
+			}
+		}
+		conn = used
+		checkReported("a restart of the source")
+		simrt.Hit("restart-with-connections-reported")
+		w.stop()
+		w.drain()
+	}
 	env.Sample(map[string]interface{}{"nchan": nchan, "blocks": len(blocks), "final_connections": connString(conn), "records": len(w.sk.recs)})
 }
 
